@@ -1,6 +1,7 @@
 import MosdnsVerif.Lemmas.C20Inv
 import MosdnsVerif.Model.C20Pool
 import MosdnsVerif.Model.C20Hold
+import MosdnsVerif.Model.C20Share
 import MosdnsVerif.Model.C20Time
 import MosdnsVerif.Model.C20Copy
 import MosdnsVerif.Refine.C20
@@ -620,6 +621,112 @@ theorem shared_opt_is_wrong :
 
 end copies
 
+/-! ### Two overlapping calls never share a threshold timer
+The pool has other clients (the sleep step, dual_selector). `Model.C20Share` keeps, for every timer, how often it
+lies in the pool and how many borrowers hold it; `exactlyOnce` is the regenerated fact `c20PoolClientsReleaseOnce`
+(and `c20ThresholdTimerFromPool` for fallback itself). -/
+section share
+open Model.C20Share (upd at?)
+
+theorem share_at_mem : ∀ (s : Model.C20Share.St) (i : Nat) (y : Nat × Nat), at? s i = some y → y ∈ s
+  | [], _, _, h => by simp [at?] at h
+  | x :: xs, 0, y, h => by simp [at?] at h; simp [h]
+  | x :: xs, n + 1, y, h => by
+    simp [at?] at h
+    exact List.mem_cons_of_mem _ (share_at_mem xs n y h)
+
+theorem share_inv_upd (f : Nat × Nat → Nat × Nat) : ∀ (s : Model.C20Share.St) (i : Nat), Model.C20Share.inv s →
+    (∀ y, at? s i = some y → (f y).1 + (f y).2 = 1) → Model.C20Share.inv (upd f s i)
+  | [], _, h, _ => by simpa [upd] using h
+  | x :: xs, 0, h, hf => by
+    intro z hz
+    simp [upd] at hz
+    rcases hz with hz | hz
+    · subst hz; exact hf x (by simp [at?])
+    · exact h z (List.mem_cons_of_mem _ hz)
+  | x :: xs, n + 1, h, hf => by
+    intro z hz
+    simp [upd] at hz
+    rcases hz with hz | hz
+    · subst hz; exact h _ (List.mem_cons_self ..)
+    · exact share_inv_upd f xs n (fun w hw => h w (List.mem_cons_of_mem _ hw)) (fun y hy => hf y (by simpa [at?] using hy)) z hz
+
+theorem share_inv_step (s s' : Model.C20Share.St) (e : Model.C20Share.Ev) (h : Model.C20Share.inv s) (hs : Model.C20Share.step true s e = some s') : Model.C20Share.inv s' := by
+  cases e with
+  | fresh =>
+    simp [Model.C20Share.step] at hs; subst hs
+    intro z hz
+    rcases List.mem_append.mp hz with hz | hz
+    · exact h z hz
+    · simp at hz; subst hz; rfl
+  | get i =>
+    simp only [Model.C20Share.step] at hs
+    cases hat : at? s i with
+    | none => simp [hat] at hs
+    | some y =>
+      obtain ⟨p, k⟩ := y
+      simp [hat] at hs
+      obtain ⟨hp, hs⟩ := hs
+      subst hs
+      refine share_inv_upd _ s i h ?_
+      intro y hy
+      have := h y (share_at_mem s i y hy)
+      rw [hat] at hy; cases hy
+      simp at this ⊢; omega
+  | release i =>
+    simp only [Model.C20Share.step] at hs
+    cases hat : at? s i with
+    | none => simp [hat] at hs
+    | some y =>
+      obtain ⟨p, k⟩ := y
+      simp [hat] at hs
+      obtain ⟨hp, hs⟩ := hs
+      subst hs
+      refine share_inv_upd _ s i h ?_
+      intro y hy
+      have := h y (share_at_mem s i y hy)
+      rw [hat] at hy; cases hy
+      simp at this ⊢; omega
+  | again i => simp [Model.C20Share.step] at hs
+
+theorem share_inv_run : ∀ (evs : List Model.C20Share.Ev) (s s' : Model.C20Share.St), Model.C20Share.inv s → Model.C20Share.run true s evs = some s' → Model.C20Share.inv s'
+  | [], s, s', h, hr => by simp [Model.C20Share.run] at hr; subst hr; exact h
+  | e :: es, s, s', h, hr => by
+    simp only [Model.C20Share.run] at hr
+    cases hst : Model.C20Share.step true s e with
+    | none => simp [hst] at hr
+    | some s1 =>
+      simp [hst] at hr
+      exact share_inv_run es s1 s' (share_inv_step s s1 e h hst) hr
+
+/-- If every client of the pool hands each timer it got back exactly once, then after ANY history of borrows and
+releases by any clients no timer is held by two borrowers: two overlapping fallback calls never share a threshold timer. -/
+theorem no_timer_has_two_holders (evs : List Model.C20Share.Ev) (s : Model.C20Share.St) (hr : Model.C20Share.run true Model.C20Share.init evs = some s) :
+    ∀ x, x ∈ s → x.2 ≤ 1 := by
+  intro x hx
+  have := share_inv_run evs Model.C20Share.init s (by intro x hx; simp [Model.C20Share.init] at hx) hr x hx
+  omega
+
+/-- ... and a timer is never handed out while a borrower still holds it. -/
+theorem handed_out_timer_is_unheld (evs : List Model.C20Share.Ev) (s : Model.C20Share.St) (i : Nat) (hr : Model.C20Share.run true Model.C20Share.init evs = some s) (s' : Model.C20Share.St)
+    (hg : Model.C20Share.step true s (.get i) = some s') : ∃ p, at? s i = some (p, 0) := by
+  simp only [Model.C20Share.step] at hg
+  cases hat : at? s i with
+  | none => simp [hat] at hg
+  | some y =>
+    obtain ⟨p, k⟩ := y
+    simp [hat] at hg
+    have := share_inv_run evs Model.C20Share.init s (by intro x hx; simp [Model.C20Share.init] at hx) hr _ (share_at_mem s i _ hat)
+    simp at this
+    exact ⟨p, by congr; omega⟩
+
+/-- A client that hands one timer back twice (a cancelled step whose helper releases it and whose deferred release
+runs as well) breaks it: the next two borrowers hold the same timer. -/
+theorem double_release_is_wrong :
+    Model.C20Share.run false Model.C20Share.init [.fresh, .release 0, .again 0, .get 0, .get 0] = some [(0, 2)] := by decide
+
+end share
+
 /-! ### Guards over the regenerated facts -/
 theorem facts_guard :
     Gen.Facts.c20PrimarySendsBeforeClose = some true ∧ Gen.Facts.c20PrimaryFailClosesThenSendsNil = some true ∧
@@ -627,7 +734,8 @@ theorem facts_guard :
     Gen.Facts.c20SecondSelectCases = some true ∧ Gen.Facts.c20CollectLoop = some true ∧
     Gen.Facts.c20ThresholdTimerFromPool = some true ∧ Gen.Facts.c20ReleaseTimerDrains = some true ∧
     Gen.Facts.c20GetTimerOnlyResets = some true ∧ Gen.Facts.c20TimerHeldByItsReader = some true ∧
-    Gen.Facts.c20CopyToQueryDeep = some true ∧ Gen.Facts.c20WorkersRunOnCopies = some true := by decide
+    Gen.Facts.c20CopyToQueryDeep = some true ∧ Gen.Facts.c20WorkersRunOnCopies = some true ∧
+    Gen.Facts.c20PoolClientsReleaseOnce = some true := by decide
 
 /-! ### Non-vacuity: an in-time primary with a finished standby secondary; a slow primary -/
 example : (run ⟨true, true, true, true⟩ init [.sStart, .sFinish, .pFinish, .pOp, .pOp, .sWaitDone, .mRecv]).map (·.result) = some .prim := by decide
